@@ -1,9 +1,11 @@
 (** Data source names of the sql driver (driver/driver.go [updogDriver.Open], [openFile]):
     scheme, file path, option string; which index options a [file:] source asks for and under
     which key its connection is shared (C12, C17).  Modelled: [url.Parse] on names of the shape
-    scheme ":" path [ "?" query ] without '%', '+', ';' or '#' (the generator writes none; they
-    involve percent-decoding, which is trusted, not modelled), [url.Values.Get] (first value of a
-    key), [strconv.ParseUint(s, 10, 64)].  No proofs in this file. *)
+    scheme ":" path [ "?" query ] whose path has no '%' and whose text has no '#' and no control
+    byte (the generator writes none), [url.ParseQuery] on the query INCLUDING percent-decoding
+    ([url.QueryUnescape]: "%XX" with two hex digits is one byte, '+' is a space, a malformed
+    escape drops the pair) and the rejection of pairs containing ';', [url.Values.Get] (first
+    value of a key), [strconv.ParseUint(s, 10, 64)].  No proofs in this file. *)
 From updog Require Import Prelude.
 Local Open Scope N_scope.
 
@@ -25,12 +27,45 @@ Fixpoint split_on (c : N) (s : str) : list str :=
       end
   end.
 
-(** [url.ParseQuery]: pairs separated by '&', empty pairs skipped, key and value separated by
-    the first '='. *)
+(** Value of a hexadecimal digit ([net/url.unhex], guarded by [ishex]). *)
+Definition hexval (c : N) : option N :=
+  if (48 <=? c) && (c <=? 57) then Some (c - 48)
+  else if (97 <=? c) && (c <=? 102) then Some (c - 87)
+  else if (65 <=? c) && (c <=? 70) then Some (c - 55)
+  else None.
+
+(** [url.QueryUnescape]: '%' must be followed by two hex digits and stands for that byte,
+    '+' stands for a space, every other byte for itself; [None]: invalid escape. *)
+Fixpoint unescape (s : str) : option str :=
+  match s with
+  | [] => Some []
+  | c :: r =>
+      if c =? 37 then
+        match r with
+        | a :: b :: r' =>
+            match hexval a, hexval b with
+            | Some x, Some y => match unescape r' with Some t => Some ((16 * x + y) :: t) | None => None end
+            | _, _ => None
+            end
+        | _ => None
+        end
+      else match unescape r with Some t => Some ((if c =? 43 then 32 else c) :: t) | None => None end
+  end.
+
+Definition has_byte (c : N) (s : str) : bool := existsb (N.eqb c) s.
+
+(** [url.ParseQuery] (whose error [URL.Query] discards): pairs separated by '&'; a pair containing
+    ';' and an empty pair are skipped; key and value are separated by the first '=' and each is
+    percent-decoded, a pair with an invalid escape in either is skipped. *)
 Definition parse_query (q : str) : list (str * str) :=
   omap (λ p, match p with
              | [] => None
-             | _ => let '(k, v) := cut 61 p in Some (k, default [] v)
+             | _ => if has_byte 59 p then None else
+                    let '(k, v) := cut 61 p in
+                    match unescape k, unescape (default [] v) with
+                    | Some k', Some v' => Some (k', v')
+                    | _, _ => None
+                    end
              end) (split_on 38 q).
 
 (** [url.Values.Get]: the first value associated with the key, the empty string otherwise. *)
